@@ -52,7 +52,7 @@ PROPS = {
                 "parentheses protect (a text that may split at its own top level does not split once parenthesised); a top-level && / || between two non-splitting texts separates exactly there into exactly the two trimmed "
                 "texts; such texts compose. The model of parse_when_clause / split_logical_operator / the single-comparison pattern is compared with the code on every generated clause; the Coq-defined expectation exp_rule "
                 "(what was written, independent of layout by construction) is compared with the parser's output on every generated file.",
-        "level_note": "Partial: the front end that carves a file into rules and a rule into header / when / then (two regular expressions of rexile for the rule header and the attributes, quote-aware scans for the block, the braces and the `then`) is not modelled - its result is observed and compared with exp_rule; Known finding (monitor class 5): the `$Obj.method(args)` action form comes back as the custom action `method(args)` (the method-call pattern never matches; class 5 only when the observation is exactly the expectation with that substitution). The former findings about braces in string literals / descriptions, `then` in a string literal and braces or rule headers in comments were repaired (96b5934, fded141, 631953a) and are checked like everything else. Trusted: Coq kernel; model of grl.rs after fixes 804c5fd ee6c06e b8f8cd8 f796657 389caa3 7515c16 fbc30e7 751cd5b 4ea3eb2 601e5f7 94337f6 96b5934 (comments removed before the rule split; former class 4) fded141 (quote-aware when / then split; former class 3) 631953a (rule blocks and headers end at braces outside string literals; former classes 2 and 6) 5f13a73 (documented block comments) 262b6e2 (arithmetic left-hand sides with parentheses or a literal first are test conditions); hooks 26bcb2e de17ceb 23605b3; harness; extraction. Axioms: none.",
+        "level_note": "Partial: the front end that carves a file into rules and a rule into header / when / then (two regular expressions of rexile for the rule header and the attributes, quote-aware scans for the block, the braces and the `then`) is not modelled - its result is observed and compared with exp_rule; Known finding (monitor class 5): the `$Obj.method(args)` action form comes back as the custom action `method(args)` (the method-call pattern never matches; class 5 only when the observation is exactly the expectation with that substitution). The former findings about braces in string literals / descriptions, `then` in a string literal and braces or rule headers in comments were repaired (96b5934, fded141, 631953a) and are checked like everything else. Trusted: Coq kernel; model of grl.rs after fixes 804c5fd ee6c06e b8f8cd8 f796657 389caa3 7515c16 fbc30e7 751cd5b 4ea3eb2 601e5f7 94337f6 96b5934 (comments removed before the rule split; former class 4) fded141 (quote-aware when / then split; former class 3) 631953a (rule blocks and headers end at braces outside string literals; former classes 2 and 6) 5f13a73 (documented block comments) 262b6e2 (arithmetic left-hand sides with parentheses or a literal first are test conditions) e44bc95 (only matching outer parentheses are dropped from a single condition); hooks 26bcb2e de17ceb 23605b3; harness; extraction. Axioms: none.",
         "trusted_base": ["rexile 0.5.8 regular expressions of grl.rs: not modelled"],
         "assumptions": ["string literals contain no quote character of their own kind (GRL has no escape sequences)", "dates in the form YYYY-MM-DD"],
     },
